@@ -17,9 +17,10 @@ PROPS = {
     ),
     'C04': dict(
         title='Control flow follows the program text',
-        verus=['exec_flow', 'exec_glue'], kani=[],
+        verus=['exec_flow', 'exec_glue', 'visit_defaults'], kani=[],
         technique=V + ': block/if/while/until/break/continue/return of exec_stmt.rs against trace languages over a ghost '
-                      'event trace with abstract callees (unbounded: all blocks, all iteration counts, failing callees)',
+                      'event trace with abstract callees (unbounded: all blocks, all iteration counts, failing callees); the statement dispatch the '
+                      'interpreter inherits (VisitProgram::visit_statement default: each of the 18 statement kinds goes to its own method)',
     ),
     'C05': dict(
         title='Functions, scopes and pronouns',
